@@ -95,6 +95,17 @@ pub fn would_be_in_bounds(sc: &Sc, pre: &Obs, op: &Op) -> bool {
     true
 }
 
+pub fn mag(x: u128) -> u32 {
+    // decimal order of magnitude, in steps of three
+    let mut m = 0;
+    let mut y = x;
+    while y >= 1000 {
+        y /= 1000;
+        m += 1;
+    }
+    m
+}
+
 pub fn regime(n: u128, l: u128) -> &'static str {
     if l == 0 && n == 0 {
         "empty"
@@ -407,7 +418,7 @@ impl Model {
                                 }
                             }
                         }
-                        self.seen("C04", format!("stake|{}|{}", regime(pre.n, pre.l), (paid_s == pre.min_stake()) as u8));
+                        self.seen("C04", format!("stake|{}|{}|{}|{}", regime(pre.n, pre.l), (paid_s == pre.min_stake()) as u8, mag(paid_s), mag(pre.n)));
                     }
                     if self.on("C03") {
                         if post.l != l0 + total_minted {
@@ -459,7 +470,7 @@ impl Model {
                             }
                             self.count(&format!("stake_proto:{}", regime(pre.n, pre.l)));
                         }
-                        self.seen("C03", format!("stake|{}|{}|{}", regime(pre.n, pre.l), to_native, is_proto && is_native));
+                        self.seen("C03", format!("stake|{}|{}|{}|{}|{}", regime(pre.n, pre.l), to_native, is_proto && is_native, mag(paid_s), mint_to.is_some()));
                     }
                 }
             }
@@ -470,7 +481,7 @@ impl Model {
                     if burned != pre.pending.total || pre.l.checked_sub(post.l) != Some(burned) {
                         v.push(Viol { prop: "C03", what: format!("submit burned {burned}, batch total {}, LST total {} -> {}", pre.pending.total, pre.l, post.l) });
                     }
-                    self.seen("C03", format!("submit|{}", regime(pre.n, pre.l)));
+                    self.seen("C03", format!("submit|{}|{}|{}", regime(pre.n, pre.l), mag(burned), pre.pending.count.min(4)));
                 }
                 if self.on("C04") {
                     let rf = prim::mul_div_floor(pre.n, pre.pending.total, pre.l);
@@ -481,7 +492,7 @@ impl Model {
                     if !ge_prod(post.n, pre.l, pre.n, post.l) {
                         v.push(Viol { prop: "C04", what: format!("submit lowered the redemption rate: {}/{} -> {}/{}", pre.n, pre.l, post.n, post.l) });
                     }
-                    self.seen("C04", format!("submit|{}", regime(pre.n, pre.l)));
+                    self.seen("C04", format!("submit|{}|{}|{}", regime(pre.n, pre.l), mag(pre.pending.total), mag(pre.n)));
                 }
             }
         }
@@ -687,7 +698,7 @@ impl Model {
                         v.push(Viol { prop: "C11", what: "reward accepted from an account that is not the reward collector's hook account".into() });
                     }
                 }
-                self.seen("C11", format!("reward|{}|{}|{}|{}", rate.min(100_001), pre.treasury().is_some(), res.ok, pre.l == 0));
+                self.seen("C11", format!("reward|{}|{}|{}|{}|{}|{}", rate.min(100_001), pre.treasury().is_some(), res.ok, pre.l == 0, mag(paid_s), fee.map(|f| (f == 0) as u8).unwrap_or(2)));
             }
             if is_feew {
                 let a = msg.get("fee_withdraw").map(|m| vu128(m, "amount")).unwrap_or(0);
@@ -781,7 +792,7 @@ impl Model {
                             if posts.len() != 1 {
                                 v.push(Viol { prop: "C15", what: format!("{kind} changed the totals but posted {} oracle messages", posts.len()) });
                             }
-                            self.seen("C15", format!("post|{kind}|{}|{}", regime(pre.n, pre.l), regime(post.n, post.l)));
+                            self.seen("C15", format!("post|{kind}|{}|{}|{}|{}", regime(pre.n, pre.l), regime(post.n, post.l), mag(post.n), pur.as_ref().map(|p| p.len()).unwrap_or(0)));
                         }
                         for p in &posts {
                             if p.0 != o || &p.1 != t || Some(p.2.clone()) != pur || Some(p.3.clone()) != red {
@@ -794,7 +805,7 @@ impl Model {
                             v.push(Viol { prop: "C15", what: format!("{kind}: no oracle configured but a contract call was dispatched") });
                         }
                         if changed {
-                            self.seen("C15", format!("nopost|{kind}|{}", regime(post.n, post.l)));
+                            self.seen("C15", format!("nopost|{kind}|{}|{}", regime(post.n, post.l), mag(post.n)));
                         }
                     }
                 }
